@@ -26,9 +26,11 @@ RULE = ('scenarios = (member configurations from harness/impl.gen_sim_config wit
         'single sim x n_runs or list of sims; api multi_run/MultiSim/parallel; mode parallel/serial/debug; n_cpus 1,2,4 (thorough: 16); '
         'reseed None/True/False; iterpars rand_seed / n_agents; inplace on/off; population created by the sim or supplied by the caller (own_people); '
         'state of the process-global generators of the calling process (host)); fixed families every run incl. caller-supplied People + ss.Births in lists/replicates, serial / one worker / in place; '
+        'members that differ only in a data input (mortality tables), zoo entries as members of one list (serial, 2 workers); every standalone reference in a pristine process; '
         'summaries: msim.summary after mean()/median(), summarize(method, how) under a history of how values; distinct = distinct canonical scenario; '
         'non-trivial = at least two members and at least one standalone comparison')
-TRUSTED = ['multiprocess.Pool.map: results are returned in task order; default chunk size ceil(n/(4*workers)); the tasks of one chunk are pickled together (validated: the driver is given the chunk size computed by this formula and must predict the observed outcome)',
+TRUSTED = ['harness/props/c18_ref.py: a child forked from an interpreter that imported starsim and never ran a simulation is a pristine process for the reference run',
+           'multiprocess.Pool.map: results are returned in task order; default chunk size ceil(n/(4*workers)); the tasks of one chunk are pickled together (validated: the driver is given the chunk size computed by this formula and must predict the observed outcome)',
            'sciris.parallelize: ncpus = min(n_cpus or cpu_count, n_jobs); default parallelizer multiprocess (fork)',
            'NumPy: np.mean / np.std(ddof=0) / np.quantile(method=linear) compute the statistics the model defines, up to the stated floating-point tolerance']
 ASSUMPTIONS = ['the simulation itself is a function of (configuration, seed, state of the process-global generators when stepping starts): Model GEnv.simG; that Sim.init resets those generators from the seed first is a regenerated fact (initSeedsGlobalFirst) and the frame theorems C18_host_state_frame* follow; every real multi-run is started from a random state of the process-global generators (scenario `host`), the standalone references from another; a mismatch is classified (host-state dependent = failure; differs even from an identical host state = C01/C14, skipped and counted)',
@@ -80,18 +82,39 @@ def set_host_state(x):
 _STANDALONE = {}
 
 
+def _key(cfg, seed):
+    return (json.dumps(cfg, sort_keys=True), int(seed))
+
+
+def _ref_fetch(jobs):
+    """ reference runs, each in a child forked from a pristine interpreter in which no simulation ever ran (c18_ref) """
+    from harness.props import c18_ref
+    res = c18_ref.fetch([(cfg, int(seed), host) for cfg, seed, host in jobs])
+    for (cfg, seed, host), r in zip(jobs, res):
+        if '__error__' in r:
+            raise RuntimeError(f"standalone run (seed {seed}) failed in the reference process: {r['__error__']}")
+    return res
+
+
+def prefetch(pairs):
+    """ run the missing standalone references of [(cfg, seed)] concurrently """
+    todo = {}
+    for cfg, seed in pairs:
+        k = _key(cfg, seed)
+        if k not in _STANDALONE and k not in todo: todo[k] = (cfg, int(seed), HOST_STANDALONE)
+    if todo:
+        for k, r in zip(todo, _ref_fetch(list(todo.values()))):
+            _STANDALONE[k] = r
+
+
 def standalone(cfg, seed, fresh=False, host=HOST_STANDALONE):
-    """ flat results of the configuration run alone, in this process, with this seed (cached) """
-    key = (json.dumps(cfg, sort_keys=True), int(seed))
-    if fresh or key not in _STANDALONE:
-        with quiet():
-            set_host_state(host)
-            sim = build(cfg, seed)
-            sim.run()
-        res = impl.flat_results(sim)
-        if fresh:
-            return res
-        _STANDALONE[key] = res
+    """ flat results of the configuration run ALONE with this seed: in a fresh process (forked from an interpreter that has
+        imported starsim and never run anything), its process-global generators put into state `host` first (cached) """
+    if fresh:
+        return _ref_fetch([(cfg, seed, host)])[0]
+    key = _key(cfg, seed)
+    if key not in _STANDALONE:
+        _STANDALONE[key] = _ref_fetch([(cfg, seed, host)])[0]
     return _STANDALONE[key]
 
 
@@ -103,11 +126,6 @@ def _digest(flat):
     return h.hexdigest()
 
 
-def _hash_run(args):
-    cfg, seed = args
-    return _digest(standalone(cfg, seed, fresh=True))
-
-
 def classify(cfg, seed):
     """ Why can a member differ from its standalone run?
         'ok'     : the standalone run is a function of (configuration, seed): the mismatch is a genuine C18 failure.
@@ -116,7 +134,7 @@ def classify(cfg, seed):
                    reset them before the first read.  Then a member's results depend on which worker runs it and on what
                    ran there before — worker count, scheduling, serial vs parallel: a C18 failure (the frame theorem
                    C18_host_state_frame rests on exactly this reset).
-        'nondet' : it differs even from an identical host state (8 forked children, plain multiprocessing): reads of
+        'nondet' : it differs even from an identical host state (8 more pristine processes): reads of
                    uninitialised storage etc. — C01's / C14's subject; the caller skips and counts the case. """
     key = (json.dumps(cfg, sort_keys=True), int(seed))
     if key not in _CLASS:
@@ -129,16 +147,10 @@ _CLASS = {}
 
 def _classify(cfg, seed):
     a = standalone(cfg, seed)
-    a2 = standalone(cfg, seed, fresh=True)
-    if not impl.arrays_equal(a, a2)[0]:
+    runs = _ref_fetch([(cfg, seed, HOST_STANDALONE)] * 8 + [(cfg, seed, HOST_OTHER)])
+    if not all(impl.arrays_equal(a, r)[0] for r in runs[:8]):
         return 'nondet'
-    import multiprocessing as mp
-    with mp.get_context('fork').Pool(4) as pool:
-        hs = pool.map(_hash_run, [(cfg, seed)] * 8, chunksize=1)
-    if set(hs) != {_digest(a)}:
-        return 'nondet'
-    b = standalone(cfg, seed, fresh=True, host=HOST_OTHER)
-    if not impl.arrays_equal(a, b)[0]:
+    if not impl.arrays_equal(a, runs[8])[0]:
         return 'host'
     return 'ok'
 
@@ -364,10 +376,27 @@ def compare_outcome(sc, out, model):
 # ---------------------------------------------------------------------------
 # scenario generator
 
-def small_cfg(rng, births=False, own_people=False):
+TABLE_SCALES = [2.0, 8.0, 20.0, 40.0, 60.0]
+
+
+def small_cfg(rng, births=False, own_people=False, table=None):
+    """ `table`: ss.Deaths driven by an age / sex / year mortality TABLE (a data input) scaled by this factor, instead of a scalar rate """
     cfg = _small_cfg(rng, births)
     if own_people: cfg['own_people'] = True
+    if table is None and rng.random() < 0.25 and any(d['type'] == 'deaths' for d in cfg.get('demographics', [])):
+        table = rng.choice(TABLE_SCALES)
+    if table:
+        dem = [d for d in cfg.get('demographics', []) if d['type'] != 'deaths']
+        cfg['demographics'] = dem + [dict(type='deaths', death_table=dict(scale=float(table)))]
     return cfg
+
+
+def with_table(cfgs, base_id, scale):
+    """ the same configuration with another mortality table """
+    c = json.loads(json.dumps(cfgs[base_id]))
+    c['demographics'] = [d for d in c.get('demographics', []) if d['type'] != 'deaths'] + [dict(type='deaths', death_table=dict(scale=float(scale)))]
+    cfgs.append(c)
+    return len(cfgs) - 1
 
 
 def _small_cfg(rng, births=False):
@@ -427,7 +456,14 @@ def gen_scenario(rng, thorough=False, force=None):
     if same and rng.random() < 0.15:
         v = rng.choice([50, 80, 110])
         sc['sim_args'] = dict(n_agents=v, cfg_id=with_n_agents(cfgs, 0, v), seed=None, as_kwargs=rng.random() < 0.5)
-    sc.update({k: v for k, v in force.items() if k not in ('target', 'mode', 'min_members', 'births', 'sizes', 'own_people')})
+    sc.update({k: v for k, v in force.items() if k not in ('target', 'mode', 'min_members', 'births', 'sizes', 'own_people', 'tables')})
+    # prepare-then-run with the SAME parameter given twice (per run through iterpars and for all runs through sim_args / kwargs) is a
+    # contradictory input: the one-step run lets iterpars win, the second step of initialize=True re-applies the kwargs to the prepared
+    # list (the model predicts exactly that); the property demands nothing for it -> not generated
+    ipn_ = ip_norm(sc.get('iterpars'))
+    if sc.get('api') == 'initrun' and sc.get('sim_args') and ipn_ and ((ipn_.get('n_agents') is not None and sc['sim_args'].get('n_agents') is not None)
+                                                                     or (ipn_.get('seeds') is not None and sc['sim_args'].get('seed') is not None)):
+        sc['sim_args'] = None
     # the state of the process-global generators the hosting process is in when the multi-run starts
     sc['host'] = rng.randint(1, 2 ** 31 - 2)
     # caller-supplied population (not together with n_agents overrides: the supplied People object fixes the size)
@@ -435,6 +471,10 @@ def gen_scenario(rng, thorough=False, force=None):
     if 'own_people' not in force and not (ipn and ipn.get('n_agents') is not None) and not sc.get('sim_args') and rng.random() < 0.3:
         for c in cfgs:
             if rng.random() < 0.7: c['own_people'] = True
+    if force.get('tables'):     # members that differ ONLY in a data input: the mortality table their ss.Deaths module is driven by (same seed)
+        sd = rng.randint(0, 10000)
+        cfgs[0] = dict(cfgs[0], unit='year', start=2000, dt=rng.choice([0.5, 1.0]), dur=6)     # a time line on which background deaths do occur
+        sc['members'] = [dict(cfg=with_table(cfgs, 0, v), seed=sd) for v in force['tables']]
     if force.get('sizes'):      # members of different sizes (same configuration otherwise)
         sc['members'] = [dict(cfg=with_n_agents(cfgs, 0, v), seed=rng.randint(0, 10000)) for v in force['sizes']]
     # keep clear of the chunk-sharing finding in the random stream (it has its own probes): n <= 4*workers
@@ -448,7 +488,14 @@ def fixed_families(rng, thorough=False):
     """ Scenario families exercised in EVERY run (one per clause of the property / configuration family of its quantifier) """
     G = lambda **f: gen_scenario(rng, thorough, dict(dict(iterpars=None, sim_args=None, reseed=None, shrink=None), **f))
     sizes = rng.choice([[90, 150, 60, 120], [120, 60, 150, 90], [60, 150, 90], [150, 90, 120, 60, 100]])
+    tabs = rng.sample(TABLE_SCALES, 3)
     fam = [
+        # members that differ in a DATA INPUT rather than a scalar (mortality tables of ss.Deaths; same seed, same everything else):
+        # serial loop in the caller's process, fewer workers than members, in place -- whatever ran before in any of these
+        # processes (each reference is run in a pristine process, c18_ref)
+        G(target='list', mode='serial', api=rng.choice(['MultiSim', 'multi_run']), inplace=True, tables=tabs, own_people=False),
+        G(target='list', mode='parallel', n_cpus=rng.choice([1, 2]), api=rng.choice(['parallel', 'multi_run', 'MultiSim']), inplace=True,
+          tables=tabs[::-1] + [rng.choice(TABLE_SCALES)], own_people=False),
         # caller-supplied population + a module that draws from the process-global generator (ss.Births): every member must
         # still be its standalone run, whatever state the hosting process is in (one worker / serial loop: the state the
         # previous member left; forked workers: the parent's) -- lists (not reseeded) and replicates, in place
@@ -493,7 +540,29 @@ def fixed_families(rng, thorough=False):
     sc = G(target='list', mode=rng.choice(['parallel', 'serial']), n_cpus=2, api='MultiSim', inplace=True,
            members=[dict(cfg=0, seed=77), dict(cfg=0, seed=78), dict(cfg=0, seed=77, alias=0)])
     fam.append(sc)
+    fam += zoo_families(rng)
     return fam
+
+
+ZOO_EXCLUDE = {'pools'}     # (Pregnancy + MixingPools crash upstream; pools entries are kept out of mixed lists)
+
+
+def zoo_families(rng, k=4):
+    """ a few entries of the shared configuration zoo (harness/zoo.py) as the members of ONE list, run serially and on two
+        workers: heterogeneous members (units, own time steps, tables, interventions, user objects) in one process """
+    from harness import zoo
+    entries = zoo.configs(exclude=ZOO_EXCLUDE)
+    names = [n for n, _ in entries]
+    pick = rng.sample(names, min(k, len(names)))
+    if 'deaths-table' in names and 'deaths-table' not in pick: pick[0] = 'deaths-table'
+    cfgs = [dict(c) for n, c in entries if n in pick]
+    if 'deaths-table' in pick:          # and the same entry with another table
+        with_table(cfgs, [n for n, _ in entries if n in pick].index('deaths-table'), 5.0)
+    members = [dict(cfg=i, seed=int(c.get('rand_seed', 11)) + i) for i, c in enumerate(cfgs)]
+    base = dict(cfgs=cfgs, members=members, target='list', n_runs=1, reseed=None, iterpars=None, sim_args=None, do_run=True, preinit=False, shrink=None,
+                zoo=pick)
+    return [dict(base, api='MultiSim', mode='serial', n_cpus=None, inplace=True, host=rng.randint(1, 2 ** 31 - 2)),
+            dict(json.loads(json.dumps(base)), api=rng.choice(['multi_run', 'parallel']), mode='parallel', n_cpus=2, inplace=True, host=rng.randint(1, 2 ** 31 - 2))]
 
 
 def canon(sc):
@@ -852,6 +921,15 @@ def correspond(ctx):
     for rec in records:
         lines += [rec[4], rec[5] or 'chunk 1 1']
     outl = ctx.drive(DRIVER, lines) if lines else []
+    want = []
+    for ri, (sc, out, sched, chunk, mline, hline) in enumerate(records):
+        pm = parse_model(outl[2 * ri]) if outl[2 * ri] != 'bad-op' else {}
+        for name in ('sims', 'callers'):
+            want += [(sc['cfgs'][p_['cfg']], p_['eff']) for p_ in (pm.get(name) or []) if p_['eff'] is not None and p_['cfg'] < len(sc['cfgs'])]
+    try:
+        prefetch(want)
+    except RuntimeError as e:
+        ctx.count('prefetch_errors')
     for ri, (sc, out, sched, chunk, mline, hline) in enumerate(records):
         ml, hl = outl[2 * ri], outl[2 * ri + 1]
         if ml == 'bad-op':
@@ -960,6 +1038,7 @@ def oracle_scenario(sc, rng=None, with_reduce=True):
                           what=f"{desc} raised {out['error']}: {out['message']}"))
         return fails, out
     exp = expected_members(sc)
+    if sc.get('do_run', True): prefetch([(sc['cfgs'][c], sd) for c, sd in exp])
     if len(out['sims']) != len(exp):
         fails.append(dict(signature=dict(oracle='member-count'), what=f"{desc}: {len(out['sims'])} members returned, {len(exp)} expected"))
         return fails, out
@@ -1258,7 +1337,7 @@ def search(ctx):
     n = ctx.budget(5, 50)
     scenarios = [gen_scenario(ctx.rng, ctx.thorough) for _ in range(n)]
     fam = [sc for sc in fixed_families(ctx.rng, ctx.thorough) if sc['mode'] != 'debug']
-    scenarios += fam if (ctx.thorough or ctx.broken) else fam[:10]
+    scenarios += fam if (ctx.thorough or ctx.broken) else fam[:10] + [sc for sc in fam[10:] if sc.get('zoo')]
     did_sum = 0; did_boundary = False
     for i, sc in enumerate(scenarios):
         fails, out = oracle_scenario(sc, ctx.rng)
